@@ -1,4 +1,5 @@
 #!/bin/bash
+# (each cargo test runs in its own network namespace: the suite uses fixed localhost ports, so parallel runs would collide)
 # usage: confirm_seed.sh <worktree> <k>   -> writes <worktree>/SEED/<k>/confirm.json
 # Confirms: (1) with patch.diff the existing suite still passes (41, 0 failed); (2) with patch+demo some test fails;
 # (3) with demo only (patch reverted) everything passes.
@@ -7,7 +8,7 @@ cd $wt || exit 2
 [ -f Cargo.lock ] || cp /repo/Cargo.lock Cargo.lock
 cmp -s Cargo.lock /repo/Cargo.lock || cp /repo/Cargo.lock Cargo.lock
 git checkout -q -- . ; git clean -fdq -e SEED -e target -e Cargo.lock
-run() { timeout 1500 cargo test --workspace --no-fail-fast --offline 2>&1 | tee $d/$1.log | awk '/^test result:/ {p+=$4; f+=$6} END {printf "%d %d", p, f}'; }
+run() { timeout 1500 unshare -n bash -c 'ip link set lo up; exec cargo test --workspace --no-fail-fast --offline' 2>&1 | tee $d/$1.log | awk '/^test result:/ {p+=$4; f+=$6} END {printf "%d %d", p, f}'; }
 feat=""
 grep -q "benchmark" $d/meta.json && grep -qi "features mempool/benchmark\|--features" $d/meta.json && feat=$(python3 - "$d/meta.json" <<'PY'
 import json,sys,re
@@ -19,13 +20,13 @@ git apply $d/patch.diff || { echo '{"error":"patch does not apply"}' > $d/confir
 r1=$(run with_patch)
 git apply $d/demo.diff || { echo '{"error":"demo does not apply"}' > $d/confirm.json; git checkout -q -- .; exit 1; }
 if [ -n "$feat" ]; then
-  r2=$(timeout 1500 cargo test --workspace --no-fail-fast --offline --features $feat 2>&1 | tee $d/with_patch_demo.log | awk '/^test result:/ {p+=$4; f+=$6} END {printf "%d %d", p, f}')
+  r2=$(timeout 1500 unshare -n bash -c "ip link set lo up; exec cargo test --workspace --no-fail-fast --offline --features $feat" 2>&1 | tee $d/with_patch_demo.log | awk '/^test result:/ {p+=$4; f+=$6} END {printf "%d %d", p, f}')
 else
   r2=$(run with_patch_demo)
 fi
 git apply -R $d/patch.diff
 if [ -n "$feat" ]; then
-  r3=$(timeout 1500 cargo test --workspace --no-fail-fast --offline --features $feat 2>&1 | tee $d/demo_only.log | awk '/^test result:/ {p+=$4; f+=$6} END {printf "%d %d", p, f}')
+  r3=$(timeout 1500 unshare -n bash -c "ip link set lo up; exec cargo test --workspace --no-fail-fast --offline --features $feat" 2>&1 | tee $d/demo_only.log | awk '/^test result:/ {p+=$4; f+=$6} END {printf "%d %d", p, f}')
 else
   r3=$(run demo_only)
 fi
